@@ -576,8 +576,9 @@ def execution_around(lines, idx, reset_pred=lambda ln: ln.startswith('{"e":"new"
 # the common conformance pipeline: trace file -> shards -> TLC -> classified rejections
 
 def tlc_export_edges(module, cfg, timeout=900, xmx="4g"):
-    """Run the export config (ACTION_CONSTRAINT printing <<"EDGE", ToJson(hist')>>) with one
-    worker (deterministic BFS) and return the list of histories (lists of call records)."""
+    """Run the export config (ACTION_CONSTRAINT printing <<"EDGE", ToJson(hist')>>) and return the
+    list of histories (lists of call records): one history per transition of the graph (the
+    history is a shortest one up to ties between workers); sorted, so the order is stable."""
     # the export is a pure function of the specification files: cache it by their content
     key = sha(module, open(os.path.join(SPEC, "cfg", cfg)).read(),
               *[file_sha(os.path.join(SPEC, f)) for f in sorted(os.listdir(SPEC)) if f.endswith(".tla")])[:20]
@@ -589,12 +590,13 @@ def tlc_export_edges(module, cfg, timeout=900, xmx="4g"):
         r = TlcResult(0, d["tail"], 0.0)
         r.cached = True
         return d["hists"], r
-    r = tlc(module, cfg, workers=1, timeout=timeout, xmx=xmx)
+    r = tlc(module, cfg, workers=8, timeout=timeout, xmx=xmx)
     if not r.ok:
         raise Broken("TLC export %s/%s failed rc=%d\n%s" % (module, cfg, r.rc, r.out[-3000:]))
     hists = []
     for m in re.finditer(r'^<<"EDGE", "(.*)">>$', r.out, re.M):
         hists.append(json.loads(m.group(1).replace('\\"', '"').replace("\\\\", "\\")))
+    hists.sort(key=lambda x: json.dumps(x, sort_keys=True))   # order independent of worker scheduling
     tail = "\n".join(ln for ln in r.out.splitlines() if "EDGE" not in ln)[-3000:]
     with open(cpath + ".tmp", "w") as f:
         json.dump({"hists": hists, "tail": tail}, f)
